@@ -311,6 +311,20 @@ var minimalUnit = map[string]string{
 func genParserInput(t *rapid.T, ep string) ParserInput {
 	switch rapid.IntRange(0, 22).Draw(t, "src") {
 	case 21, 22:
+		if rapid.IntRange(0, 3).Draw(t, "framed") == 0 {
+			// a clearsign frame around the input, in the shapes (and half-shapes) such frames come in:
+			// the readers of control data look for one whether or not a keyring was given
+			head := rapid.SampledFrom([]string{"-----BEGIN PGP SIGNED MESSAGE-----\nHash: SHA256\n\n", "-----BEGIN PGP SIGNED MESSAGE-----\n\n", "-----BEGIN PGP SIGNED MESSAGE-----\n", "-----BEGIN PGP SIGNED MESSAGE-----\nHash: SHA256\n", "-----BEGIN PGP SIGNED MESSAGE-----\nHash:\n\n", "-----BEGIN PGP SIGNED MESSAGE-----", "-----BEGIN PGP SIGNED MESSAGE-----\r\nHash: SHA512\r\n\r\n", ""}).Draw(t, "frameHead")
+			tail := rapid.SampledFrom([]string{"-----BEGIN PGP SIGNATURE-----\n\niQEzBAEBCAAdFiEE\n=abcd\n-----END PGP SIGNATURE-----\n", "-----BEGIN PGP SIGNATURE-----\niQEzBAEBCAAdFiEE\n-----END PGP SIGNATURE-----\n", "-----BEGIN PGP SIGNATURE-----\n", "-----BEGIN PGP SIGNATURE-----", "", "-----END PGP SIGNATURE-----\n-----BEGIN PGP SIGNATURE-----\n\n-----END PGP SIGNATURE-----\n", "\n-----BEGIN PGP SIGNATURE-----\n\n-----END PGP SIGNATURE-----"}).Draw(t, "frameTail")
+			body := genValidFor(t, ep)
+			switch rapid.IntRange(0, 3).Draw(t, "frameBody") {
+			case 0:
+				body = ""
+			case 1:
+				body = strings.TrimRight(body, "\n")
+			}
+			return ParserInput{EP: ep, Input: []byte(head + body + tail), Src: "mutated"}
+		}
 		return ParserInput{EP: ep, Input: []byte(slotSoup(t, genValidFor(t, ep))), Src: "mutated"}
 	case 20:
 		// sizes locked to the 4096-byte I/O buffer: the whole input, or its last line, is exactly
@@ -466,7 +480,7 @@ func genParserInput(t *rapid.T, ep string) ParserInput {
 
 var specC18Total = Register(&Spec[ParserInput]{
 	Prop: "C18", Name: "total",
-	Rule:  "for each of 13 parser entry points (version.Parse; dependency.Parse / ParseArch / ParseArchitectures; ParagraphReader.All; ParseDsc, ParseChanges, ParseControl, ParseBinaryIndex, ParseSourceIndex, Unmarshal(&deb.Control); changelog.Parse / ParseOne) inputs from that parser's own grammar generator (4/20), line- and byte-level mutations (delete, duplicate, join, swap lines; one field repeated under lower- and upper-case spellings of its name) and truncations of them (14/22), one or two words of a valid input replaced by / glued to a soup of 1..3 tokens of the formats' own punctuation (2/22), raw bytes, or a valid input with a line-start marker ('#', '-', '/*', '$Id$', blank, '.', NUL ...) put in front of, behind or inside it with and without a line end (1/21), a valid input - or the format's smallest unit, 1000 times and more - repeated up to 64 KiB, in half of the cases with two to four copies damaged in different ways (1/22), and inputs whose total length or last-line length is exactly 4096*k-1, 4096*k or 4096*k+1 with and without a final newline (1/21). Oracle: the call returns within 60 s without panicking; when it returns an error no pointer/slice/map result is non-nil and non-empty and a struct result (version.Parse) is the zero value; a second call - made after 0..2 other generated inputs (often failing ones) went through the same entry point - gives a deeply equal value, the same error-ness and the same error text (big inputs: four more calls). Non-trivial: grammar-derived input (valid, mutated or big); distinct by (entry point, bytes).",
+	Rule:  "for each of 13 parser entry points (version.Parse; dependency.Parse / ParseArch / ParseArchitectures; ParagraphReader.All; ParseDsc, ParseChanges, ParseControl, ParseBinaryIndex, ParseSourceIndex, Unmarshal(&deb.Control); changelog.Parse / ParseOne) inputs from that parser's own grammar generator (4/20), line- and byte-level mutations (delete, duplicate, join, swap lines; one field repeated under lower- and upper-case spellings of its name) and truncations of them (14/22), one or two words of a valid input replaced by / glued to a soup of 1..3 tokens of the formats' own punctuation, or a valid input inside a clearsign frame in the shapes and half-shapes such frames come in (2/22), raw bytes, or a valid input with a line-start marker ('#', '-', '/*', '$Id$', blank, '.', NUL ...) put in front of, behind or inside it with and without a line end (1/21), a valid input - or the format's smallest unit, 1000 times and more - repeated up to 64 KiB, in half of the cases with two to four copies damaged in different ways (1/22), and inputs whose total length or last-line length is exactly 4096*k-1, 4096*k or 4096*k+1 with and without a final newline (1/21). Oracle: the call returns within 60 s without panicking; when it returns an error no pointer/slice/map result is non-nil and non-empty and a struct result (version.Parse) is the zero value; a second call - made after 0..2 other generated inputs (often failing ones) went through the same entry point - gives a deeply equal value, the same error-ness and the same error text (big inputs: four more calls). Non-trivial: grammar-derived input (valid, mutated or big); distinct by (entry point, bytes).",
 	Check: checkParserInput,
 })
 
